@@ -124,7 +124,9 @@ class Gen:
                 self.opaque.append(kname)
             op.update(m="RawJSON", v={"t": "[]byte", "s": b64(raw)})
         elif k == "RawCBOR":
-            op.update(m="RawCBOR", v={"t": "[]byte", "s": b64(r.choice([b"\x01", b"\x83\x01\x02\x03", b"\xf6", b""]))})
+            # embedded CBOR: payloads whose base64 form uses every alphabet symbol class ('+' and '/': 0xfb.., ..0xff) and padding length
+            op.update(m="RawCBOR", v={"t": "[]byte", "s": b64(r.choice([b"\x01", b"\x83\x01\x02\x03", b"\xf6", b"", b"\xfb\x40\x09\x21\xfb\x54\x44\x2d\x18", b"\x9f\x01\xff",
+                                                                          b"\xff\xff\xff", b"\xfb\xef\xbe", bytes(r.randrange(256) for _ in range(r.randrange(1, 12)))]))})
         elif k == "Bool":
             op.update(m="Bool", v={"t": "bool", "b": r.random() < 0.5})
         elif k == "Float32":
